@@ -10,12 +10,14 @@
  *   D api fmt rate spl soff id                  configure a slicer (api new|old), dump its fields
  *   L api fmt rate spl soff id mode lo hi step seed hex
  *        one exactly sized line in front of a guard page; mode sig: the service's reference
- *        waveform with sampling offset o = lo..hi (step); noise|sat|sq: `lo..hi` are seeds/levels
+ *        waveform with sampling offset o = lo..hi (step); noise|sat|sq: `lo..hi` are seeds/levels/phases;
+ *        late: black up to sample o = lo..hi, then run-in and framing code of the service as rectangular pulses
  *   A api fmt rate spl soff id o hex            the same single line on an exactly sized heap block (ASan)
  *   P fmt rate spl soff id o hex                new slicer with sampling points (8 bit luma formats)
  *   I api fmt rate bpl scanning s0 c0 s1 c1 interlaced synchronous       create a raw decoder
  *   S add set strict | S rem set | S resize s0 c0 s1 c1 | S reset | S par set scanning
- *   F o flags guard maxl n {line:id:hex}*n      render a frame with the library's transmitter, decode it
+ *   F o flags guard maxl n {line:id:hex}*n      render a frame with the library's transmitter, decode it into an array of
+ *                                               maxl records (maxl < 0: one per row)
  *   G kind seed                                 frame of noise (kind 0), constant level seed (1), square wave (2)
  */
 #define _GNU_SOURCE
@@ -238,6 +240,28 @@ static void cmd_L(char *a)
 			for (i = 0; i < line.size; ++i) line.p[i] = rnd();
 		} else if (!strcmp(mode, "sat")) {
 			memset(line.p, o & 255, line.size);
+		} else if (!strcmp(mode, "late")) {
+			/* a transmission that begins late in the line, as rectangular pulses with full swing in every
+			   byte: black up to sample o, then the run-in bits of the service's CRI word at the CRI rate,
+			   the framing code bits at the bit rate, then alternating payload bits up to the line end */
+			long i;
+			const _vbi_service_par *q = s.par;
+			double pc_ = (double) rate / q->cri_rate, pb = (double) rate / q->bit_rate;
+			double cri_len = q->cri_bits * pc_;
+			unsigned cri = q->cri_frc >> q->frc_bits, frc = q->cri_frc & ((1u << q->frc_bits) - 1);
+			for (i = 0; i < (long) spl; ++i) {
+				double t = (double) (i - o);
+				int v = 0;
+				if (t >= 0 && t < cri_len) {
+					int b = (int) (t / pc_);
+					v = (cri >> (q->cri_bits - 1 - b)) & 1;
+				} else if (t >= cri_len) {
+					int b = (int) ((t - cri_len) / pb);
+					if (b < (int) q->frc_bits) v = (frc >> (q->frc_bits - 1 - b)) & 1;
+					else v = (b ^ (seed >> 3)) & 1;
+				}
+				memset(line.p + i * bpp, v ? 0xFF : 0x00, bpp);
+			}
 		} else { /* sq: square wave with a period of 2 CRI bits, phase o, full swing in every byte */
 			size_t i;
 			double per = (double) rate / s.par->cri_rate;
@@ -432,7 +456,7 @@ static void cmd_S(char *a)
 static void decode_and_print(gbuf *img, int maxl_arg)
 {
 	unsigned rows = D.rd.count[0] + D.rd.count[1];
-	unsigned maxl = D.is_old ? rows : (maxl_arg > 0 ? (unsigned) maxl_arg : rows);
+	unsigned maxl = D.is_old ? rows : (maxl_arg >= 0 ? (unsigned) maxl_arg : rows);
 	gbuf out; vbi_sliced *o; int n = -1; unsigned i;
 	vbi_sliced *shadow;
 	if (!galloc(&out, maxl * sizeof(vbi_sliced))) { printf("{\"err\":\"mmap\"}\n"); return; }
@@ -518,7 +542,7 @@ static void cmd_G(char *a)
 		unsigned bpp = bpp_of(D.rd.sampling_format), per = seed ? seed : 1;
 		for (i = 0; i < size; ++i) img.p[i] = (((i / bpp) / per) & 1) ? 0xFF : 0;
 	}
-	decode_and_print(&img, 0);
+	decode_and_print(&img, -1);
 	gfree(&img);
 }
 
